@@ -237,7 +237,7 @@ def substitute(ex, subst):
     if k == "cast":
         return ("cast", ex[1], substitute(ex[2], subst)) + tuple(ex[3:])
     if k == "call":
-        return ("call", ex[1], ex[2], tuple(substitute(a, subst) for a in ex[3]), ex[4])
+        return ("call", ex[1], ex[2], tuple(substitute(a, subst) for a in ex[3])) + tuple(ex[4:])
     if k == "agg":
         return ("agg", ex[1], ex[2], ex[3], tuple((n, substitute(e, subst)) for n, e in ex[4]))
     if k == "phi":
@@ -264,7 +264,7 @@ def positional(ex):
     if k == "cast":
         return ("cast", ex[1], positional(ex[2])) + tuple(ex[3:])
     if k == "call":
-        return ("call", ex[1], ex[2], tuple(positional(a) for a in ex[3]), ex[4])
+        return ("call", ex[1], ex[2], tuple(positional(a) for a in ex[3])) + tuple(ex[4:])
     if k == "agg":
         return ("agg", ex[1], ex[2], ex[3], tuple((n, positional(e)) for n, e in ex[4]))
     if k == "phi":
